@@ -513,6 +513,163 @@ def describe(c, texts=None):
     return d
 
 
+# ------------------------------------------------------------------------------------ configuration histories
+def gen_scenario(rng, i):
+    """configure (rules that disable something) -> emit -> { clear() + configure without rules | restore } -> emit
+    the same kinds of messages again.  Synchronous, one emitting thread (PrettyFormatter::instance() keeps its
+    thread table across configurations), default size/count (no retention)."""
+    keys = ['filter_rules', 'message_pattern', 'path'] + [k for k in BKEYS if k != 'async']
+    sub = {'filter_rules'} | {k for k in keys if rng.random() < 0.4}
+    if not ({'stdout', 'stderr', 'path'} & sub) and rng.random() < 0.7:
+        sub.add(rng.choice(['stdout', 'stderr', 'path']))
+    p1 = gen_ini_case(rng, 500000 + i, subset=set(sub))
+    cats = ['net', 'app.ui', 'app.db', 'x']
+    p1['rules'] = [gen_rule(rng) for _ in range(rng.randint(0, 2))] + \
+                  [{'name': rng.choice(['net', 'app.', 'app.ui', '']), 'wild': rng.random() < 0.6, 'type': rng.choice(['-', 'd', 'i', 'w']), 'en': False}]
+    for r in p1['rules']:
+        if not r['wild'] and not r['name']:
+            r['wild'] = True
+    p1.update(tty=(0, 0), codec='utf8', pre='', end='exec', size=None, count=None)
+    p1['keys'] = [k for k in p1['keys'] if k not in ('max_file_size', 'max_file_count')]
+    t = 1700000000 + rng.randrange(10 ** 6)
+    ms = []
+    for k in range(rng.randint(2, 5)):
+        ms.append({'t': rng.choice(TYPES), 'w': 0, 'cat': rng.choice(cats), 'text': rng.choice(['one', 'two', 'keep me', 'Alpha 1', 'z']), 'time': t + k})
+    # make sure something is actually disabled in phase 1: one message aimed at the last rule
+    last = p1['rules'][-1]
+    ms.append({'t': last['type'] if last['type'] != '-' else rng.choice(TYPES), 'w': 0,
+               'cat': (last['name'] + ('ui' if last['name'].endswith('.') else '')) if last['name'] else rng.choice(cats), 'text': 'aimed', 'time': t + 9})
+    p1['msgs'] = ms
+    kind = rng.choice(['reconf', 'reconf', 'restore'])
+    sc = {'front': 'history', 'id': i, 'kind': kind, 'phase1': p1, 'msgs2': [dict(m, time=m['time'] + 100, text=m['text'] + ' again') for m in ms]}
+    if kind == 'reconf':
+        p2 = dict(p1, keys=[k for k in p1['keys'] if k != 'filter_rules'], rules=[], id=p1['id'] + 1, msgs=sc['msgs2'])
+        if rng.random() < 0.3:
+            p2['rx'] = None; p2['keys'] = [k for k in p2['keys'] if k != 'regexp_filter']
+        sc['phase2'] = p2
+    return sc
+
+
+def msg_script(ms):
+    out = []
+    for m in ms:
+        out.append('time %d' % m['time'])
+        out.append('msg %s %d %s %s' % (m['t'], m['w'], hx8(m['cat']), hx8(m['text'])))
+    return out
+
+
+def run_scenario(impl, model, sc, work):
+    d = tempfile.mkdtemp(prefix='h%d_' % sc['id'], dir=work)
+    logdir = os.path.join(d, 'log'); os.mkdir(logdir)
+    logpath = os.path.join(logdir, 'app.log')
+    foreign = os.path.join(d, 'foreign.txt')
+    phases = [sc['phase1']] + ([sc['phase2']] if sc['kind'] == 'reconf' else [])
+    lines = [ini_line(p) for p in phases]
+    _, tx, _ = vlib.run_lines(model, lines, ['initext'])
+    s = ['shape ' + os.path.join(d, 'shape.txt'), 'foreign ' + foreign]
+    for k, (p, t) in enumerate(zip(phases, tx)):
+        pd = os.path.join(d, 'p%d' % k); os.mkdir(pd)
+        ini = write_ini(impl, p, tuple(unhx16(x) for x in t.split()), pd, logpath)
+        if k:
+            s.append('clear')
+        s.append('%s %s %s' % (p['api'], hx8(ini), '-' if p['group'] == '-' else hx8(p['group'])))
+        s += msg_script(p['msgs'])
+    if sc['kind'] == 'restore':
+        s.append('restore')
+        s += msg_script(sc['msgs2'])
+    s.append('end exec')
+    script = os.path.join(d, 'script.txt')
+    with open(script, 'w') as f:
+        f.write('\n'.join(s) + '\n')
+    rc, out, err = spawn([impl, 'run', script], 0, 0)
+    data, nrot, other, names = collect_files(logdir)
+    try:
+        fl = [l.split() for l in open(foreign).read().splitlines()]
+    except FileNotFoundError:
+        fl = None
+    shutil.rmtree(d, ignore_errors=True)
+    # what the configurations say, phase by phase; the observed streams are cut at the specified lengths and each
+    # piece is judged by the extracted oracle of its phase
+    _, sp, _ = vlib.run_lines(model, lines, ['inispec'])
+    spec = [[to_bytes(x) for x in l.split()] for l in sp]
+    obs = [out, err, data]
+    why, pos = [], [0, 0, 0]
+    orc = []
+    for k, (line, sx) in enumerate(zip(lines, spec)):
+        last = k == len(spec) - 1
+        piece = [o[pos[j]:] if last else o[pos[j]:pos[j] + len(sx[j])] for j, o in enumerate(obs)]
+        pos = [pos[j] + len(sx[j]) for j in range(3)]
+        orc.append('%s | %s %s %s' % (line, of_bytes(piece[0]), of_bytes(piece[1]), of_bytes(piece[2])))
+    _, ver, _ = vlib.run_lines(model, orc, ['inioracle'])
+    for k, v in enumerate(ver):
+        if v != '1':
+            why.append('configuration %d of the history: the outputs are not what ITS keys say' % (k + 1))
+    if rc != 0:
+        why.append('child exit code %d' % rc)
+    if sc['kind'] == 'restore':
+        want = [[m['t'], hx8(m['cat']), hx8(m['text'])] for m in sc['msgs2']]
+        if fl != want:
+            why.append('after restorePreviousMessageHandler() the previously installed handler received %d of the %d messages emitted' % (
+                len(fl or []), len(want)))
+    observed = {'rc': rc, 'stdout': out.decode('utf-8', 'replace'), 'stderr': err.decode('utf-8', 'replace'), 'log_records': data.decode('utf-8', 'replace'),
+                'foreign_handler_received': None if fl is None else [' '.join([l[0], bytes.fromhex(l[1]).decode() if l[1] != '-' else '', bytes.fromhex(l[2]).decode('utf-8', 'replace') if l[2] != '-' else '']) for l in fl if len(l) == 3]}
+    specified = {'per_configuration': [dict(zip(('stdout', 'stderr', 'log_records'), (x.decode('utf-8', 'replace') for x in sx))) for sx in spec]}
+    if sc['kind'] == 'restore':
+        specified['foreign_handler_receives'] = ['%s %s %s' % (m['t'], m['cat'], m['text']) for m in sc['msgs2']]
+    return why, observed, specified, tx
+
+
+def describe_scenario(sc, tx=None):
+    d = {'front': 'history', 'kind': sc['kind'],
+         'history': ['qInstallMessageHandler(F)', 'configure(ini #1)', 'emit messages #1'] +
+                    (['clear()', 'configure(ini #2)', 'emit messages #2'] if sc['kind'] == 'reconf' else ['restorePreviousMessageHandler()', 'emit messages #2']),
+         'phase1': describe(sc['phase1'], [unhx16(x) for x in tx[0].split()] if tx else None),
+         'messages2': [{'type': m['t'], 'thread': m['w'], 'category': m['cat'], 'text': m['text'], 'time': m['time']} for m in sc['msgs2']]}
+    if sc['kind'] == 'reconf':
+        d['phase2'] = describe(sc['phase2'], [unhx16(x) for x in tx[1].split()] if tx else None)
+    return d
+
+
+def scenario_of(d):
+    p1 = case_of(d['phase1'])
+    sc = {'front': 'history', 'id': 0, 'kind': d['kind'], 'phase1': p1,
+          'msgs2': [{'t': m['type'], 'w': m['thread'], 'cat': m['category'], 'text': m['text'], 'time': m['time']} for m in d['messages2']]}
+    if d['kind'] == 'reconf':
+        sc['phase2'] = case_of(d['phase2'], 1)
+    return sc
+
+
+def history_leg(chk, model, impl, work, n):
+    rng = chk.rng
+    scs = [gen_scenario(rng, i) for i in range(n)]
+    with ThreadPoolExecutor(max_workers=min(12, vlib.NCPU)) as ex:
+        res = list(ex.map(lambda sc: run_scenario(impl, model, sc, work), scs))
+    bad = [(sc, r) for sc, r in zip(scs, res) if r[0]]
+    for kind in ('reconf', 'restore'):
+        kb = [x for x in bad if x[0]['kind'] == kind]
+        if not kb:
+            continue
+        sc, (why, observed, specified, tx) = min(kb, key=lambda x: len(x[0]['phase1']['msgs']) + len(x[0]['phase1']['keys']))
+        chk.fail('configuration history (%s): %s' % (' -> '.join(describe_scenario(sc)['history']), '; '.join(why)),
+                 {'kind': 'config_history', 'front': 'history', 'why': why, 'scenario': describe_scenario(sc, tx), 'observed': observed,
+                  'specified': specified, 'falsified_histories': len(kb)}, kind='config_history')
+    dropped1 = sum(1 for sc, r in zip(scs, res) if len(r[2]['per_configuration'][0]['stderr'] + r[2]['per_configuration'][0]['stdout'] + r[2]['per_configuration'][0]['log_records']) == 0)
+    return {'history_cases': n, 'history_kinds': {k: sum(1 for sc in scs if sc['kind'] == k) for k in ('reconf', 'restore')},
+            'history_oracle_falsified': len(bad),
+            'history_phase1_rejecting_rules_hit': sum(1 for sc in scs if not all(
+                _py_pass(sc['phase1']['rules'], m) for m in sc['phase1']['msgs']))}
+
+
+def _py_pass(rules, m):
+    """generator statistics only: does the rule list let the message through (same few-line matcher as the model)"""
+    en = True
+    for r in rules:
+        hit = (m['cat'].startswith(r['name']) if r['wild'] else m['cat'] == r['name']) and r['type'] in ('-', m['t'])
+        if hit:
+            en = r['en']
+    return en
+
+
 def lexing_probe(model, impl):
     """information only (QSettings INI lexing is outside the model): what an UNQUOTED rules value containing
     ';' and '=' means to QSettings, decided by comparing the child with the model on the full / truncated value"""
@@ -737,6 +894,7 @@ def run():
                 chk.samples.append({'ini_case': describe(cs[len(fixed) + 1]), 'observed': small(obs[len(fixed) + 1])})
             else:
                 chk.samples.append({'oneline_case': describe(cs[0]), 'observed': small(obs[0])})
+        cov.update(history_leg(chk, model, impl, work, 400 if thorough else 90))
         if thorough:
             # the same children under AddressSanitizer + UndefinedBehaviorSanitizer (+ leak check at exit)
             san = vlib.build_harness('config', 'san')
@@ -758,7 +916,7 @@ def run():
     cov['retention_trimmed_cases'] = stats['trimmed']
     cov['ini_lexing_probe'] = lexing_probe(model, impl)
     chk.samples += cov.pop('install_samples')
-    total = cov['install_histories'] + cov['ini_cases'] + cov['oneline_cases']
+    total = cov['install_histories'] + cov['ini_cases'] + cov['oneline_cases'] + cov['history_cases']
     cov.update({'evaluations': total,
                 'distinct_nontrivial': cov['install_distinct_nontrivial'] + cov['ini_distinct_nontrivial'] + cov['oneline_distinct_nontrivial'],
                 'rule': 'install: random histories (length <= 12) over I R F1 F2 F3 D plus every history up to the stated length; non-trivial = contains an '
@@ -783,6 +941,19 @@ def replay(path):
         print('model          ', vlib.run_lines(model, [h], ['install'])[1])
         _, o, _ = vlib.run_lines(impl, [h])
         print('oracle         ', vlib.run_lines(model, ['%s %s' % (h, o[0] if o else '')], ['instoracle'])[1])
+        return 0
+    if r.get('scenario'):
+        impl = vlib.build_harness('config')
+        sc = scenario_of(r['scenario'])
+        work = tempfile.mkdtemp(prefix='c19r_')
+        try:
+            why, observed, specified, tx = run_scenario(impl, model, sc, work)
+        finally:
+            shutil.rmtree(work, ignore_errors=True)
+        print('history        ', json.dumps(describe_scenario(sc, tx), ensure_ascii=False))
+        print('implementation ', json.dumps(observed, ensure_ascii=False))
+        print('specification  ', json.dumps(specified, ensure_ascii=False))
+        print('verdict        ', why or 'holds')
         return 0
     case = r.get('case')
     if not case:
